@@ -28,6 +28,12 @@ def plan_stream(tier, seed, repo_dir):
             l = l.strip()
             if l and not l.startswith("#"):
                 lines.append("D " + l); modes.append("corpus")
+    # complete enumeration of the small shapes (every dependency pattern x Async/fallible marking): 1-3 providers in
+    # the quick tier, 4 providers in the thorough tier
+    nex = 0
+    for k in ((1, 2, 3) if tier == "quick" else (1, 2, 3, 4)):
+        for l in G.small_exhaustive(k):
+            lines.append("D " + l); modes.append("exhaustive-%d" % k); nex += 1
     for i in range(n):
         m = "malformed" if rng.chance(0.3) else "valid"
         lines.append("D " + G.gen_decl(rng, m)); modes.append(m)
@@ -35,7 +41,7 @@ def plan_stream(tier, seed, repo_dir):
     rc, impl, out = C.go_driver(repo_dir, "kessoku", lines, timeout=3600)
     if len(impl) < len(lines):
         impl = impl + ["NO-ANSWER (driver stopped: %s)" % out.strip()[-200:]] * (len(lines) - len(impl))
-    res = dict(lines=lines, modes=modes, model=model, impl=impl)
+    res = dict(lines=lines, modes=modes, model=model, impl=impl, exhaustive_small=nex)
     _stream_cache[key] = res
     return res
 
@@ -179,8 +185,8 @@ def run_plan_property(prop, tier, seed, checks, nontrivial, describe, known_filt
     st = stream_stats(S)
     R.samples = [{"declaration": S["lines"][i][2:], "model": S["model"][i], "implementation": S["impl"][i]} for i in range(0, min(len(S["lines"]), 2000), 400)]
     R.coverage.update({"evaluations": len(S["lines"]), "distinct_nontrivial": len(distinct), "programs": len(S["lines"]),
-                       "disagreements_checked": len(diffs), "input_distribution": st,
-                       "rule": "seeded random declarations (profiles dag/zero/ctx/wide/multi; 30%% with a planted back edge / duplicate supplier / orphan Struct / unsupplied result) through the Lean model and the real planner; distinct = distinct canonical plans; non-trivial = %s" % nontrivial.__doc__})
+                       "disagreements_checked": len(diffs), "input_distribution": st, "exhaustively_enumerated_small_declarations": S.get("exhaustive_small", 0),
+                       "rule": "every declaration with 1-3 (quick) / 1-4 (thorough) single-result function providers over one argument type (all dependency patterns x Async/fallible markings, enumerated completely), then seeded random declarations (profiles dag/zero/ctx/wide/multi/shared/huge; 30%% with a planted back edge / duplicate supplier / orphan Struct / unsupplied result) through the Lean model and the real planner; distinct = distinct canonical plans; non-trivial = %s" % nontrivial.__doc__})
     return R
 
 # ------------------------------------------------------------------------------------------------ C01
